@@ -355,3 +355,118 @@ def direct_obligations(tier='quick'):
                       witness=dict(arguments={k: str(getattr(v, 'tolist', lambda: v)()) for k, v in vals.items() if not callable(v)}, observed=bad) if bad else None,
                       replayed=True if bad else None, engine='E3'))
     return out
+
+
+# ---------------------------------------------------------------------------------------------------------
+# wrappers with return_full_data: every auxiliary series, at tmin, equals the count defined DIRECTLY from the graph
+# and the requested initial sets (independent native oracle)
+# ---------------------------------------------------------------------------------------------------------
+def ic_oracle(name, G, status, shape):
+    """expected value at tmin of the returned series called `name` (None if no oracle is defined for it)"""
+    deg = dict(G.degree())
+    nodes = list(G.nodes())
+    Ks = sorted(set(deg.values()))
+    maxk = max(deg.values())
+    by_degree = (len(shape) >= 1 and shape[0] == maxk + 1)
+
+    def kidx(k):
+        return k if by_degree else Ks.index(k)
+    st = lambda u: status.get(u, 'S')
+    if name in ('Sk', 'Ik', 'Rk'):
+        out = np.zeros(shape[0])
+        for u in nodes:
+            if st(u) == name[0]:
+                out[kidx(deg[u])] += 1
+        return out
+    if name in ('SS', 'SI', 'II'):
+        c = 0
+        for u, v in G.edges():
+            for a, b in ((u, v), (v, u)):
+                if st(a) == name[0] and st(b) == name[1]:
+                    c += 1
+        return c
+    if name in ('SkSl', 'SkIl', 'IkIl'):
+        out = np.zeros(shape[:2])
+        for u, v in G.edges():
+            for a, b in ((u, v), (v, u)):
+                if st(a) == name[0] and st(b) == name[2]:
+                    out[kidx(deg[a])][kidx(deg[b])] += 1
+        return out
+    if name in ('Ssi', 'S_si', 'Isi'):
+        out = np.zeros(shape[:2])
+        for u in nodes:
+            if st(u) == name[0]:
+                s = sum(1 for w in G.neighbors(u) if st(w) == 'S')
+                i = sum(1 for w in G.neighbors(u) if st(w) == 'I')
+                out[s][i] += 1
+        return out
+    if name == 'Skappa':
+        out = np.zeros(shape[0])
+        for u in nodes:
+            if st(u) == 'S':
+                out[sum(1 for w in G.neighbors(u) if st(w) != 'R')] += 1
+        return out
+    return None
+
+
+def wrapper_full_data_obligations(tier='quick'):
+    import EoN
+    from ..pyvc.verify import Source
+    out = []
+    for wname in wrappers():
+        if not wname.endswith('_from_graph'):
+            continue
+        base = wname[:-len('_from_graph')]
+        f = getattr(EoN, wname)
+        sig = inspect.signature(f)
+        node, _ = Source.find('EoN/analytic.py', base)
+        if node is None or 'return_full_data' not in sig.parameters or 'initial_infecteds' not in sig.parameters:
+            continue
+        names = full_return_names(node)
+        if not names:
+            continue
+        t1 = time.time()
+        bad, checked, nruns = [], set(), 0
+        for gname, G in graphs(tier):
+            nodes = list(G.nodes())
+            variants = [dict(initial_infecteds=[nodes[0], nodes[2]])]
+            if 'initial_recovereds' in sig.parameters:
+                variants.append(dict(initial_infecteds=[nodes[0]], initial_recovereds=[nodes[1], nodes[-1]]))
+                variants.append(dict(initial_infecteds=[nodes[1], nodes[2]], initial_recovereds=[nodes[0]]))
+            for kw in variants:
+                nruns += 1
+                status = {u: 'I' for u in kw['initial_infecteds']}
+                status.update({u: 'R' for u in kw.get('initial_recovereds', [])})
+                calls = []
+                try:
+                    with Hn.stubbed(calls):
+                        r = f(G, sp.Rational(7, 10), sp.Rational(13, 10), tmin=1, tmax=3, tcount=3, return_full_data=True, **kw)
+                except Exception as e:
+                    bad.append(dict(graph=gname, arguments={k: [str(x) for x in v] for k, v in kw.items()},
+                                    observed='%s: %s' % (type(e).__name__, str(e)[:150])))
+                    continue
+                if len(r) != len(names):
+                    continue
+                for nm, series in zip(names, r):
+                    a = np.asarray(series, dtype=object)
+                    first = a[..., 0] if a.ndim >= 1 else a
+                    want = ic_oracle(nm, G, status, np.shape(first))
+                    if want is None:
+                        continue
+                    checked.add(nm)
+                    try:
+                        got = np.array([[float(Hn.rat(x))] for x in np.asarray(first, dtype=object).ravel()]).ravel()
+                        ok = got.shape == np.asarray(want, dtype=float).ravel().shape and np.allclose(got, np.asarray(want, dtype=float).ravel(), atol=1e-9)
+                    except Exception:
+                        ok = False
+                    if not ok:
+                        bad.append(dict(graph=gname, edges=[[str(x), str(y)] for x, y in G.edges()],
+                                        arguments={k: [str(x) for x in v] for k, v in kw.items()},
+                                        observed='series `%s` at tmin is %s but the graph and the initial sets give %s' % (
+                                            nm, str(np.asarray(first, dtype=object).tolist())[:140], str(np.asarray(want).tolist())[:140])))
+        out.append(Ob('E3:%s:full-data-series-match-the-initial-sets' % wname, 'EoN/analytic.py:%s' % wname, 'post',
+                      'bounded-refuted' if bad else 'bounded-ok', backend='real code with odeint contract stub vs an independent native oracle',
+                      seconds=round(time.time() - t1, 2), detail=(bad[0]['observed'] if bad else 'checked: ' + ', '.join(sorted(checked))),
+                      site='EoN/analytic.py:%s' % wname, bounded='graphs %s, explicit initial sets with and without recovered nodes' % [g for g, _ in graphs(tier)],
+                      witness=bad[0] if bad else None, replayed=True if bad else None, engine='E3', replay_note='%d runs' % nruns))
+    return out
